@@ -32,16 +32,25 @@ def normalised(path, name):
     if body and isinstance(body[0], ast.Expr) and isinstance(getattr(body[0], "value", None), ast.Constant) \
             and isinstance(body[0].value.value, str):
         body = body[1:]
-    params = [a.arg for a in fn.args.posonlyargs + fn.args.args + fn.args.kwonlyargs]
+    params = [a.arg for a in fn.args.posonlyargs + fn.args.args]
     if fn.args.vararg:
-        raise TranslatorError(f"{name}: *args in the signature")
+        params.append("*" + fn.args.vararg.arg)
+    params += [a.arg for a in fn.args.kwonlyargs]
     if fn.args.kwarg:
         params.append("**" + fn.args.kwarg.arg)
+    # logging is not behaviour: logger set-up and logger.debug/info/warning calls are skipped
+    def is_logging(st):
+        if isinstance(st, ast.Assign) and isinstance(st.value, ast.Call) and ast.unparse(st.value.func) == "logging.getLogger":
+            return True
+        return (isinstance(st, ast.Expr) and isinstance(st.value, ast.Call) and isinstance(st.value.func, ast.Attribute)
+                and st.value.func.attr in ("debug", "info", "warning") and isinstance(st.value.func.value, ast.Name)
+                and st.value.func.value.id in ("logger", "log", "LOGGER"))
+    body = [st for st in body if not is_logging(st)]
     stores = []
     for st in body:
         for n in sorted((x for x in ast.walk(st) if isinstance(x, ast.Name) and isinstance(x.ctx, ast.Store)),
                         key=lambda x: (x.lineno, x.col_offset)):
-            if n.id not in params and n.id not in KEEP and n.id not in stores:
+            if n.id not in [q.lstrip("*") for q in params] and n.id not in KEEP and n.id not in stores:
                 stores.append(n.id)
     ren = {s: f"v{k}" for k, s in enumerate(stores)}
 
